@@ -175,29 +175,60 @@ func viPermute(nodes []FileNode) []FileNode {
 	return out
 }
 
-// VerifLemma_C08B_Canonical: NewManifest fails iff two nodes share a path; otherwise String() is exactly the
+// VerifLemma_C08B_Canonical: NewManifest fails if two nodes share a path with different digests, succeeds for pairwise
+// different paths (an exact duplicate may be rejected or deduplicated); on success String() is exactly the
 // reference text (lines "digest  path\n" in strictly increasing bytewise path order), FileNodes() is in that order,
 // GetFileNode/GetDigest find exactly the nodes, and every permutation of the input gives the same text.
 func VerifLemma_C08B_Canonical() {
 	n := verifNondetChoice(verifParam("FILES") + 1)
 	nodes := viAcceptedNodes(n, verifParam("N"), verifParam("SYMDIGEST"))
-	dup := false
+	// optionally the last node repeats the digest of the first one (an exact duplicate when the paths are equal too)
+	if n >= 2 && verifNondetBool() {
+		node, err := NewFileNode(nodes[n-1].Path(), nodes[0].Digest())
+		verifAssume(err == nil)
+		nodes[n-1] = node
+	}
+	dupDifferent, dupSame := false, false
 	for i := 0; i < n; i++ {
 		for j := i + 1; j < n; j++ {
 			if nodes[i].Path() == nodes[j].Path() {
-				dup = true
+				if DigestEqual(nodes[i].Digest(), nodes[j].Digest()) {
+					dupSame = true
+				} else {
+					dupDifferent = true
+				}
 			}
 		}
 	}
 	m, err := NewManifest(nodes)
 	verifCover("NewManifest returned")
-	verifAssert((err != nil) == dup, "NewManifest fails iff a path is duplicated")
-	if err != nil {
+	if dupDifferent {
+		// documented: "if two FileNodes with the same path have different Digests, an error is returned"
+		verifAssert(err != nil, "NewManifest fails when a path is duplicated with different digests")
 		return
 	}
-	// reference: insertion sort by path
+	if dupSame {
+		// documented as "deduplicated upon construction"; the current code rejects exact duplicates as well. Both are
+		// accepted; when a manifest is returned it must be the manifest of the deduplicated set (checked below).
+		verifCover("exact duplicate")
+		if err != nil {
+			return
+		}
+	} else {
+		verifAssert(err == nil, "NewManifest accepts nodes with pairwise different paths")
+	}
+	// reference: insertion sort by path, exact duplicates dropped
 	sorted := make([]FileNode, 0, n)
 	for _, node := range nodes {
+		seen := false
+		for _, other := range sorted {
+			if other.Path() == node.Path() {
+				seen = true
+			}
+		}
+		if seen {
+			continue
+		}
 		k := len(sorted)
 		for k > 0 && refILess(node.Path(), sorted[k-1].Path()) {
 			k--
@@ -213,13 +244,15 @@ func VerifLemma_C08B_Canonical() {
 	text := m.String()
 	verifAssert(text == want, "manifest text is the path-sorted list of digest SP SP path LF lines")
 	got := m.FileNodes()
-	verifAssert(len(got) == n, "FileNodes has every node")
+	verifAssert(len(got) == len(sorted), "FileNodes has every node")
 	for i := range got {
-		verifAssert(got[i] == sorted[i], "FileNodes is sorted by path")
-		verifAssert(m.GetFileNode(sorted[i].Path()) == sorted[i], "GetFileNode finds each node by path")
+		// equality of the (path, digest) values; whether the very same FileNode objects are handed back is not part of the contract
+		verifAssert(got[i].Path() == sorted[i].Path() && DigestEqual(got[i].Digest(), sorted[i].Digest()), "FileNodes is sorted by path")
+		found := m.GetFileNode(sorted[i].Path())
+		verifAssert(found != nil && found.Path() == sorted[i].Path() && DigestEqual(found.Digest(), sorted[i].Digest()), "GetFileNode finds each node by path")
 		verifAssert(DigestEqual(m.GetDigest(sorted[i].Path()), sorted[i].Digest()), "GetDigest finds each digest by path")
 	}
-	if n >= 2 {
+	if n >= 2 && !dupSame {
 		m2, err := NewManifest(viPermute(nodes))
 		verifAssert(err == nil, "a permutation of distinct paths is accepted")
 		verifAssert(m2.String() == text, "manifest text does not depend on input order")
